@@ -427,7 +427,12 @@ impl Session {
     /// Drop the ring the way a caller would. Teardown is judged elsewhere.
     pub fn finish(&mut self) {
         if let Some(r) = self.ring.take() {
-            let _ = vh::runner::catch(move || drop(r));
+            if std::thread::panicking() {
+                // keep the information about the panic that is unwinding (a nested catch resets it)
+                drop(r);
+            } else {
+                let _ = vh::runner::catch(move || drop(r));
+            }
         }
     }
 }
